@@ -108,6 +108,8 @@ pub struct MapSpec {
     /// spinner) instead of 400 ms after its end; 2 = every 4th stream note carries a finish, every 4th+2 a clap;
     /// 4 = the stream is stacked on one spot
     pub stream_style: u8,
+    /// tenths added to the mania CircleSize (a key count of 4.5 is decodable; calculators round it)
+    pub cs_tenths: u8,
 }
 
 /// Gaps >= END_REL are measured from the previous object's *end*: gap - END_REL ms after it.
@@ -127,6 +129,7 @@ impl MapSpec {
             jitter: 0,
             repeat: 1,
             stream_style: 0,
+            cs_tenths: 0,
         }
     }
 
@@ -145,7 +148,7 @@ impl MapSpec {
             DiffPreset::D7 => (3.0, 4.0, 3.0, 3.0, 2.0, 1.0),
             DiffPreset::D8 => (8.0, 4.5, 9.0, 9.5, 1.4, 1.0),
         };
-        let cs = if self.mode == 3 { f64::from(self.keys) } else { cs };
+        let cs = if self.mode == 3 { f64::from(self.keys) + f64::from(self.cs_tenths) / 10.0 } else { cs };
         let _ = writeln!(
             s,
             "\n[Difficulty]\nHPDrainRate:{hp}\nCircleSize:{cs}\nOverallDifficulty:{od}\nApproachRate:{ar}\nSliderMultiplier:{sm}\nSliderTickRate:{tr}"
@@ -168,6 +171,7 @@ impl MapSpec {
         let px_per_ms = 100.0 * sm / if self.timing == Timing::T4 { 6.0 } else { 500.0 };
         let (mut x, mut y) = (100 + (37 * i32::from(self.jitter)) % 300, 100 + (23 * i32::from(self.jitter)) % 200);
         let mut col: u32 = 0;
+        let mut frac_prev_x: Option<i32> = None;
         let keys = u32::from(self.keys.max(1));
         let reps = self.repeat.max(1) as usize;
         for (i, o) in self.objs.iter().cycle().take(self.objs.len() * reps).enumerate() {
@@ -206,6 +210,17 @@ impl MapSpec {
                 };
                 x = ((f64::from(col) + 0.5) * 512.0 / f64::from(keys)).floor() as i32;
                 y = 192;
+                // fractional key count: the three selectors become two positions that share a column under `keys` columns
+                // and straddle the first column boundary under `keys + 1` (and "same as before")
+                if self.cs_tenths != 0 {
+                    let b = 512.0 / f64::from(keys + 1);
+                    x = match o.col {
+                        0 => b.floor() as i32 - 2,
+                        1 => frac_prev_x.unwrap_or(b.floor() as i32 - 2),
+                        _ => b.ceil() as i32 + 6,
+                    };
+                    frac_prev_x = Some(x);
+                }
             }
             let hs = o.sound;
             match o.kind {
